@@ -10,13 +10,14 @@
 package main
 
 import (
-	"os"
 	"context"
 	"fmt"
+	"os"
 	"strings"
 	"sync"
 
 	"k8s.io/apimachinery/pkg/apis/meta/v1/unstructured"
+	"k8s.io/apimachinery/pkg/runtime"
 	"k8s.io/apimachinery/pkg/runtime/schema"
 
 	"github.com/crossplane/crossplane/verifh/kit"
@@ -90,8 +91,11 @@ func (m *monitor) hook(v *sim.View, ev *sim.Event) {
 	ck, isClaimActor := m.actorClaim[ev.Actor]
 	// O3: no mutating call addressed to an XR whose stored claimRef names a different claim
 	// (a Create answered AlreadyExists cannot have touched the stored XR: it is how a claim whose XR
-	// cache lags finds out that the name is taken)
-	if isClaimActor && ev.Key.GK() == xrGK && ev.IsWrite() && !ev.DryRun && ev.Injected != sim.CrashBefore.String() && !(ev.Verb == "create" && ev.Reason == "AlreadyExists") {
+	// cache lags finds out that the name is taken; neither can a write the SERVER refused because
+	// the resourceVersion it was pinned to is not the stored one - that precondition is how a claim
+	// that decided on a stale XR is kept from writing)
+	if isClaimActor && ev.Key.GK() == xrGK && ev.IsWrite() && !ev.DryRun && ev.Injected != sim.CrashBefore.String() && !(ev.Verb == "create" && ev.Reason == "AlreadyExists") &&
+		!(ev.Injected == "" && ev.Reason == "Conflict" && !ev.Changed) {
 		var before map[string]any
 		if ev.Before != nil {
 			before = ev.Before
@@ -594,6 +598,8 @@ func interleavings(c *kit.Ctx, ssa bool, n int) {
 // runs k2 more calls, intruder 2 runs to completion, A finishes" over a grid, for every ordered
 // pair of intruders among the XR controller, another claim's controller and a user deleting
 // claim A - so that a given window of the binding protocol is hit by construction.
+var longClaimName = "c" + strings.Repeat("x", 62)
+
 func preemptions(c *kit.Ctx, ssa bool) {
 	mode := map[bool]string{false: "csa", true: "ssa"}[ssa]
 	intruders := []string{"xr", "claimB", "userdel"}
@@ -613,63 +619,74 @@ func preemptions(c *kit.Ctx, ssa bool) {
 				}
 				for k1 := 0; k1 <= k1max; k1++ {
 					for k2 := 0; k2 <= k2max; k2 += k2step {
-						caseName := fmt.Sprintf("preempt/%s/warm%d/%s-%s/k%d-%d", mode, warm, i1, i2, k1, k2)
-						if !c.Want(caseName) {
-							continue
+						cnames := []string{"c1"}
+						if warm == 0 && i1 == "claimB" {
+							// both claims carry the same 63-character name: their XRs' generated names
+							// share the whole prefix the name generator keeps
+							cnames = append(cnames, longClaimName)
 						}
-						n++
-						wg.Add(1)
-						sem <- struct{}{}
-						go func(idx, warm int, i1, i2 string, k1, k2 int, caseName string) {
-							defer wg.Done()
-							defer func() { <-sem }()
-							w := baseWorld(uint64(c.Seed)*47 + uint64(idx))
-							w.MustSeed("user", claimObj("ns1", "c1"))
-							w.MustSeed("user", claimObj("ns2", "c1"))
-							m := newMonitor()
-							m.actorClaim["claimA"] = claimKey("ns1", "c1")
-							m.actorClaim["claimB"] = claimKey("ns2", "c1")
-							w.AddHook(m.hook)
-							ceA := xrk.NewClaimEnvWithClient(w, xrdName, ssa, w.Client("claimA"))
-							ceB := xrk.NewClaimEnvWithClient(w, xrdName, ssa, w.Client("claimB"))
-							xe := xrk.NewXREnv(w, ceA.XRD)
-							for k := 0; k < warm; k++ {
-								_, _, _ = ceA.Reconcile("ns1", "c1")
-								for _, xr := range w.ListObjs(xrGK) {
-									_, _, _ = xe.Reconcile(sim.Str(xr, "metadata", "name"))
-								}
+						for _, cname := range cnames {
+							caseName := fmt.Sprintf("preempt/%s/warm%d/%s-%s/k%d-%d", mode, warm, i1, i2, k1, k2)
+							if cname != "c1" {
+								caseName += "/long-name"
 							}
-							from := w.LogLen()
-							s := w.NewScheduler()
-							s.Go("claimA", func() {
-								for k := 0; k < 2; k++ {
-									_, _, _ = ceA.Reconcile("ns1", "c1")
+							if !c.Want(caseName) {
+								continue
+							}
+							n++
+							wg.Add(1)
+							sem <- struct{}{}
+							go func(idx, warm int, i1, i2 string, k1, k2 int, caseName, cname string) {
+								defer wg.Done()
+								defer func() { <-sem }()
+								w := baseWorld(uint64(c.Seed)*47 + uint64(idx))
+								w.MustSeed("user", claimObj("ns1", cname))
+								w.MustSeed("user", claimObj("ns2", cname))
+								m := newMonitor()
+								m.actorClaim["claimA"] = claimKey("ns1", cname)
+								m.actorClaim["claimB"] = claimKey("ns2", cname)
+								w.AddHook(m.hook)
+								ceA := xrk.NewClaimEnvWithClient(w, xrdName, ssa, w.Client("claimA"))
+								ceB := xrk.NewClaimEnvWithClient(w, xrdName, ssa, w.Client("claimB"))
+								xe := xrk.NewXREnv(w, ceA.XRD)
+								for k := 0; k < warm; k++ {
+									_, _, _ = ceA.Reconcile("ns1", cname)
+									for _, xr := range w.ListObjs(xrGK) {
+										_, _, _ = xe.Reconcile(sim.Str(xr, "metadata", "name"))
+									}
 								}
-							})
-							s.Go("claimB", func() { _, _, _ = ceB.Reconcile("ns2", "c1") })
-							s.Go("xr", func() {
-								for _, xr := range w.ListObjs(xrGK) {
-									_, _, _ = xe.Reconcile(sim.Str(xr, "metadata", "name"))
-								}
-							})
-							u := w.Client("userdel")
-							s.Go("userdel", func() {
-								_ = u.Delete(context.Background(), &unstructured.Unstructured{Object: claimObj("ns1", "c1")})
-							})
-							plan := []sim.Segment{{Actor: "claimA", Steps: k1}, {Actor: i1, Steps: -1}, {Actor: "claimA", Steps: k2}, {Actor: i2, Steps: -1}, {Actor: "claimA", Steps: -1}}
-							sched := s.Run(sim.PlanChooser(plan), 5000)
-							w.SetScheduler(nil)
-							settle(ceA, xe, "ns1", "c1", true, 6)
-							settle(ceB, xe, "ns2", "c1", true, 6)
-							mu.Lock()
-							c.Eval(caseName, true)
-							c.Count("preemption_plans", 1)
-							c.Count("invariant_evaluations", int64(m.checks))
-							report(c, m, mode, caseName, func() any {
-								return map[string]any{"mode": mode, "plan": caseName, "schedule": strings.Join(sched, " "), "trace": shortLog(w, from, 120)}
-							})
-							mu.Unlock()
-						}(n, warm, i1, i2, k1, k2, caseName)
+								from := w.LogLen()
+								s := w.NewScheduler()
+								s.Go("claimA", func() {
+									for k := 0; k < 2; k++ {
+										_, _, _ = ceA.Reconcile("ns1", cname)
+									}
+								})
+								s.Go("claimB", func() { _, _, _ = ceB.Reconcile("ns2", cname) })
+								s.Go("xr", func() {
+									for _, xr := range w.ListObjs(xrGK) {
+										_, _, _ = xe.Reconcile(sim.Str(xr, "metadata", "name"))
+									}
+								})
+								u := w.Client("userdel")
+								s.Go("userdel", func() {
+									_ = u.Delete(context.Background(), &unstructured.Unstructured{Object: claimObj("ns1", cname)})
+								})
+								plan := []sim.Segment{{Actor: "claimA", Steps: k1}, {Actor: i1, Steps: -1}, {Actor: "claimA", Steps: k2}, {Actor: i2, Steps: -1}, {Actor: "claimA", Steps: -1}}
+								sched := s.Run(sim.PlanChooser(plan), 5000)
+								w.SetScheduler(nil)
+								settle(ceA, xe, "ns1", cname, true, 6)
+								settle(ceB, xe, "ns2", cname, true, 6)
+								mu.Lock()
+								c.Eval(caseName, true)
+								c.Count("preemption_plans", 1)
+								c.Count("invariant_evaluations", int64(m.checks))
+								report(c, m, mode, caseName, func() any {
+									return map[string]any{"mode": mode, "plan": caseName, "schedule": strings.Join(sched, " "), "trace": shortLog(w, from, 120)}
+								})
+								mu.Unlock()
+							}(n, warm, i1, i2, k1, k2, caseName, cname)
+						}
 					}
 				}
 			}
@@ -690,7 +707,11 @@ func staticRefs(c *kit.Ctx, ssa bool) {
 		// the XR appeared; it catches up once the controller has issued its first XR write
 		behindCache := variant >= 6 && variant < 8
 		// variants 8-9 are variants 0-1 with the foreign-bound XR being deleted (a finalizer holds it)
-		terminating := variant >= 8
+		terminating := variant >= 8 && variant < 10
+		// variants 10-11 are variants 0-1 with the XR bound to the other claim only AFTER the claim
+		// controller's XR cache last saw it (unbound): the guard passes on the cached XR, the write
+		// must not go through
+		lateBind := variant >= 10
 		frozenAt := w.RV()
 		if behindCache {
 			variant -= 6
@@ -698,8 +719,16 @@ func staticRefs(c *kit.Ctx, ssa bool) {
 		if terminating {
 			variant -= 8
 		}
+		if lateBind {
+			variant -= 10
+		}
 		// an XR bound to claim other/owner (variants 0-2) or to nobody (3-5)
 		xr := xrk.XRObject("ex.org/v1", "XThing", "static-xr", "comp", map[string]any{"size": int64(9)})
+		if lateBind {
+			w.MustSeed("user", runtime.DeepCopyJSON(xr))
+			frozenAt = w.RV()
+			xr = w.GetObj(sim.Key{Group: "ex.org", Kind: "XThing", Name: "static-xr"})
+		}
 		if variant < 3 {
 			// the owning claim lives in another namespace; in variant 1 it has the SAME NAME as the
 			// claim under test
@@ -713,7 +742,13 @@ func staticRefs(c *kit.Ctx, ssa bool) {
 		if terminating {
 			_ = unstructured.SetNestedStringSlice(xr, []string{"composite.apiextensions.crossplane.io", "someone.example.org/hold"}, "metadata", "finalizers")
 		}
-		w.MustSeed("user", xr)
+		if lateBind {
+			if err := w.Client("other-claim").Update(context.Background(), &unstructured.Unstructured{Object: xr}); err != nil {
+				panic(err)
+			}
+		} else {
+			w.MustSeed("user", xr)
+		}
 		if terminating {
 			_ = w.Client("user").Delete(context.Background(), &unstructured.Unstructured{Object: w.GetObj(sim.Key{Group: "ex.org", Kind: "XThing", Name: "static-xr"})})
 		}
@@ -725,11 +760,11 @@ func staticRefs(c *kit.Ctx, ssa bool) {
 		m.actorClaim["claim"] = claimKey("ns1", "c1")
 		w.AddHook(m.hook)
 		ce := xrk.NewClaimEnv(w, xrdName, ssa)
-		if behindCache {
+		if behindCache || lateBind {
 			caughtUp := false
 			lc := w.LaggingClient("claim", func(gk schema.GroupKind) (int64, bool) { return -frozenAt, !caughtUp && gk == xrGK })
 			lc.OnCall = func(_ int, verb string) {
-				if verb == "create" || verb == "patch" {
+				if verb == "create" || verb == "patch" || (lateBind && verb == "update") {
 					caughtUp = true
 				}
 			}
@@ -771,8 +806,8 @@ func staticRefs(c *kit.Ctx, ssa bool) {
 		})
 		return calls
 	}
-	for variant := 0; variant < 10; variant++ {
-		if variant >= 6 && variant < 8 && ssa {
+	for variant := 0; variant < 12; variant++ {
+		if (variant >= 6 && variant < 8 || variant >= 10) && ssa {
 			// Not judged for the server-side syncer: behind a stale XR cache the unchanged tree applies
 			// (with forced ownership) over the XR another claim is bound to. C06 quantifies over stale
 			// reads of the CLAIM; the client-side syncer holds under a stale XR cache as well (its
@@ -785,7 +820,7 @@ func staticRefs(c *kit.Ctx, ssa bool) {
 			continue
 		}
 		calls := run(caseName, variant, -1, sim.Conflict)
-		if variant > 1 && variant < 8 {
+		if variant > 1 && variant < 8 || variant >= 10 {
 			continue
 		}
 		// an API fault at every call of the refused reconcile must not open a way around the guard
@@ -808,6 +843,7 @@ func main() {
 	c.Rule += " " + "A claim deleted behind the cache is generated and counted (observed only)."
 	c.Rule += " " + "The XRD's referenceable version changes under a bound claim (also with the XR missing while its name is recorded)."
 	c.Rule += " " + "Static references with the claim controller's XR cache behind (client-side syncer judged) and with a Terminating foreign-bound XR."
+	c.Rule += " " + "Static references to an XR that another claim bound after the claim controller's XR cache last saw it (client-side syncer: the write pinned to the stale resourceVersion must be refused); preemption plans with two claims of one 63-character name."
 	c.Assumptions = []string{"sim implements resourceVersion conflicts and the stale-cache view (DESIGN.md 2.2)", "two reconciles of the same claim never run concurrently (work-queue guarantee)", "random 5-char name suffix collisions are out of scope"}
 	c.Floor = 100
 	for _, ssa := range []bool{false, true} {
